@@ -316,6 +316,15 @@ func shortQual(p *types.Package) string { return p.Name() }
 // stored value (nil otherwise).
 func (t *Terms) writeOnceMember(fa *ssa.FieldAddr, ld *ssa.UnOp) ssa.Value {
 	al, ok := fa.X.(*ssa.Alloc)
+	viaCapture := false
+	if !ok {
+		// the object is captured (by value) by the function literal the load is in
+		if fv, isFV := fa.X.(*ssa.FreeVar); isFV {
+			if a2, isA := t.resolveFree(fv).(*ssa.Alloc); isA {
+				al, ok, viaCapture = a2, true, true
+			}
+		}
+	}
 	if !ok {
 		return nil
 	}
@@ -366,7 +375,22 @@ func (t *Terms) writeOnceMember(fa *ssa.FieldAddr, ld *ssa.UnOp) ssa.Value {
 		for _, r2 := range *fa2.Referrers() {
 			if st, ok := r2.(*ssa.Store); ok && st.Addr == ssa.Value(fa2) {
 				n++
-				if st.Block() == ld.Block() {
+				if viaCapture {
+					// the literal is created after the store: every MakeClosure binding the object is dominated by it
+					okAll := true
+					for _, r3 := range *al.Referrers() {
+						mc, isMC := r3.(*ssa.MakeClosure)
+						if !isMC {
+							continue
+						}
+						if !(st.Block() == mc.Block() && instrIndex(st) < instrIndex(mc) || st.Block() != mc.Block() && st.Block().Dominates(mc.Block())) {
+							okAll = false
+						}
+					}
+					if okAll {
+						val = st.Val
+					}
+				} else if st.Block() == ld.Block() {
 					if instrIndex(st) < instrIndex(ld) {
 						val = st.Val
 					}
